@@ -155,7 +155,9 @@ def step (st : St) (op : List String) (impl : String) : LineOut St :=
       let mon := match st.implFailed with
         | none => verdict
         | some f => if st.workAfterFault then verdict.map fun v =>
-            ("fault-not-resumed", s!"after the operation {f} failed and later operations succeeded: " ++ v.2) else none
+            if f == "rn:t:m" then
+              ("fault-rename-never-recovers", s!"after compact()'s rename failed the snapshot file is gone and every later compaction fails at remove (no such file); changes after the last attempt are lost: " ++ v.2)
+            else ("fault-not-resumed", s!"after the operation {f} failed and later operations succeeded: " ++ v.2) else none
       { state := st, model := some model, monitor := if st.panicked then none else mon }
     | _, _ => bad
   | _ => bad
